@@ -37,6 +37,8 @@ type Exec struct {
 	d         *Decls
 	info      *types.Info
 	obls      []*Obligation
+	en        *Engine
+	quantSeq  int // numbering of bound variables of contract quantifiers
 	paths     int
 	undecided []string
 	nameCnt   map[string]int
@@ -1625,8 +1627,13 @@ func (x *Exec) fieldBase(st *State, e *ast.SelectorExpr, sel *types.Selection, k
 			if isPtr {
 				x.oblige(st, "no-panic", "no-panic[nil-deref]", sNot(sEq(cur.S, "nilRef")), e)
 				cur = x.readField(st, fieldKeyOf(named, f), x.d.sortOf(f.Type()), cur.S)
-			} else {
+			} else if strings.HasPrefix(cur.Sort, "S_") {
 				cur = Term{S: fmt.Sprintf("(%s_%s %s)", cur.Sort, sanitizeSym(f.Name()), cur.S), Sort: x.d.sortOf(f.Type())}
+			} else {
+				// an embedded field of a struct value the engine keeps opaque: an uninterpreted projection, as for its other fields
+				fs := x.d.sortOf(f.Type())
+				fn := x.d.fun("fld_"+sanitizeSym(named.Obj().Name()+"_"+f.Name()), []string{cur.Sort}, fs)
+				cur = Term{S: fmt.Sprintf("(%s %s)", fn, cur.S), Sort: fs}
 			}
 			t = f.Type()
 		}
